@@ -122,16 +122,59 @@ def run(args, drv):
                 pass
         shutil.copyfile(src, work)
 
-    def one_run(fault_at, only_if_required=False):
+    via = args.get('via') or 'api'
+
+    def one_run(fault_at, only_if_required=False, direct=False):
+        """direct: evolve() without asking whether an upgrade is required
+        first (preparation then happens inside evolve()); the injector
+        counts every statement, also reads."""
         from django_evolution.evolve import Evolver
+        from django_evolution.utils import migrations as _mg
+        # every run stands for a fresh process: prepare_tasks() leaves its
+        # process-global registry of custom migrations set when the
+        # preparation raises, and the next Evolver in the same process
+        # would die on an assertion (see DESIGN 7.1)
+        _mg._global_custom_migrations = None
         del drv.EVENTS[:]
         drv.FAULT.update({'at': fault_at, 'count': 0, 'fired': None,
-                          'armed': False})
-        rec = {'lock_before': mgmt._evolve_lock}
+                          'armed': False, 'any': bool(direct)})
+        rec = {'lock_before': mgmt._evolve_lock, 'via': via}
         exc = None
         returned = False
+        if via == 'cmd' and not direct:
+            # the whole run through the management command
+            import io
+            from django.core.management import call_command
+            try:
+                drv.emit('mark', what='prepare_start')
+                drv.FAULT['armed'] = True
+                try:
+                    call_command('evolve', execute=True, interactive=False,
+                                 verbosity=0, stdout=io.StringIO(),
+                                 stderr=io.StringIO())
+                    returned = True
+                finally:
+                    drv.FAULT['armed'] = False
+                    drv.emit('mark', what='evolve_end')
+            except BaseException as e:
+                exc = e
+            rec['required'] = None
+            return finish(rec, returned, exc)
         try:
             ev = Evolver()
+            if direct:
+                drv.emit('mark', what='prepare_start')
+                ev.queue_evolve_all_apps()
+                drv.FAULT['armed'] = True
+                drv.emit('mark', what='evolve_start')
+                try:
+                    ev.evolve()
+                    returned = True
+                finally:
+                    drv.FAULT['armed'] = False
+                    drv.emit('mark', what='evolve_end')
+                rec['required'] = None
+                return finish(rec, returned, None)
             # everything from here on is the run proper: preparation must
             # not change the database
             drv.emit('mark', what='prepare_start')
@@ -152,6 +195,9 @@ def run(args, drv):
                     drv.emit('mark', what='evolve_end')
         except BaseException as e:
             exc = e
+        return finish(rec, returned, exc)
+
+    def finish(rec, returned, exc):
         rec['returned'] = returned
         rec['outcome'] = drv.outcome_of(exc)
         rec['lock_after'] = mgmt._evolve_lock
@@ -235,5 +281,14 @@ def run(args, drv):
                                if e['k'] == 'signal']
         os.unlink(work + '.failed')
         out['runs'].append(rec)
+    # faults while the run is being prepared (API only): the j-th statement
+    # of any kind after the Evolver was constructed
+    out['prep_runs'] = []
+    if via == 'api' and args.get('prep_faults'):
+        for j in args['prep_faults']:
+            restore(base)
+            rec = one_run(int(j), direct=True)
+            rec['k'] = 'prep%d' % int(j)
+            out['prep_runs'].append(rec)
     out['events'] = []
     return out
